@@ -199,9 +199,15 @@ def run(ctx):
         f = pools.random_factors(rng, max_factors=rng.choice([1, 1, 2, 3]), max_exp=3, hostile=0.25, prefix_prob=0.3)
         return f, mdl.eval_real(pools.factors_term(f))
 
+    class Money(Decimal):
+        """a program's own Decimal type: an instance is a Decimal magnitude like any other"""
+
     def rand_q(kind=None):
         f, u = rand_unit()
         mag = pools.magnitude(rng, kind=kind or rng.choice(MAG_KINDS))
+        if isinstance(mag, Decimal) and type(mag) is Decimal and rng.random() < 0.3:
+            mag = Money(mag)
+            ctx.count("magnitudes_of_a_decimal_subclass")
         return f, Q(mag, u)
 
     def other_dimension_unit(u):
@@ -326,7 +332,14 @@ def run(ctx):
         except (ZeroDivisionError, OverflowError, ArithmeticError) as e:
             ctx.count(f"magnitude_arithmetic/{type(e).__name__}")
         except TypeError as e:
-            ctx.count("type_errors_from_unsupported_operand_kinds")
+            if r < 0.9 and not isinstance(locals().get("right") if (r < 0.45 or r >= 0.78) else None, m.Unit):
+                # (a bare Unit as the other operand is refused for some operators by design; that is counted below)
+                # every operand of these branches is a quantity, a unit or a plain number of a numeric type (a program's own
+                # Decimal subclass included): the operation is defined, TypeError is not an answer
+                ctx.violation("C03:raised-TypeError:numeric-operands", f"an operation on {left!r} (branch {('binary', 'pow', 'root', 'unary', 'add/sub')[sum(r >= x for x in (0.45, 0.6, 0.7, 0.78))]}"
+                              f"{', other operand ' + repr(locals().get('right')) if r < 0.45 or r >= 0.78 else ''}) raised TypeError: {e}", {"left": repr(left)})
+            else:
+                ctx.count("type_errors_from_unsupported_operand_kinds")
         except Exception as e:  # e.g. an internal error of the conversion planner: C07's business, not C03's
             ctx.count(f"other_exceptions_from_the_library/{type(e).__name__}")
 
